@@ -94,7 +94,7 @@ PROPS = {
         'assumptions': ['T04_merge_sources / T04_next_call: merge function set (never failing for the whole-iteration theorem), no dupsort; T04n_*: no merge function and/or a dupsort function (dupsort_ok = total preorder per key where the dupsort ORDER is claimed; none needed for the permutation / key-order claims)',
                         'sources obey the iterator contract of C03 (ideal cursors in the model; real readers and a user-defined source in the engine)',
                         'fold ORDER among the values of one key is unspecified by the property: the specification check compares multisets of atoms; the model predicts the exact order and is compared exactly'],
-        'explanation': 'Implementation vs model/Merger.v (array heap with the C tie-breaks, pending/cur_key bookkeeping) vs the specification (sorted union, each value folded exactly once, dupsort order, failure on failing merge) over source families of readers and of buffer-invalidating user sources.',
+        'explanation': 'Implementation vs model/Merger.v (array heap with the C tie-breaks, pending/cur_key bookkeeping) vs the specification (sorted union, each value folded exactly once, dupsort order, failure on failing merge; after a failed merge the history goes on and whatever is delivered must still be a fold of values the sources hold for that key - theorems T04f_*) over source families of readers and of buffer-invalidating user sources.',
     },
     'C05': {
         'engines': [{'name': 'mg', 'timeout_quick': 600, 'timeout_thorough': 7200}],
